@@ -559,6 +559,11 @@ Definition its_edge_ok (g : gr) (e : N * N * eatt) : bool :=
 Definition its_ok (g : gr) : bool :=
   nodupb (node_ids g) && uniq_pairs (gedges g) && forallb (fun p => its_node_ok (snd p)) (gnodes g)
   && forallb (its_edge_ok g) (gedges g).
+(** projections of typesGH *)
+Definition tg_el (t : tg) : str := let '(e, _, _, _) := t in e.
+Definition tg_ch (t : tg) : Z := let '(_, _, _, c) := t in c.
+Definition tG_of (a : natt) : tg := match a_tgh a with Some (t, _) => t | None => tg_dflt end.
+Definition tH_of (a : natt) : tg := match a_tgh a with Some (_, t) => t | None => tg_dflt end.
 (** what a node of the ITS read back from GML looks like: hcount 0, aromatic False, atom_map = node id *)
 Definition gml_node (n : N) (e : str) (q q' : Z) : natt :=
   NA (Some e) (Some false) (Some 0) (Some q) (Some (Z.of_N n)) (Some ((e, false, 0, q), (e, false, 0, q'))).
